@@ -402,7 +402,7 @@ fn series(rng: &mut Rng) {
 
 pub fn run(rng: &mut Rng, n: usize) {
     for _ in 0..n {
-        domains(rng);
-        series(rng);
+        case("series.case", "c17.library_call_panics", || domains(rng));
+        case("series.case", "c17.library_call_panics", || series(rng));
     }
 }
